@@ -142,7 +142,7 @@ REACH = {
             "reenter_other_key", "repeat_with_different_global_state", "reseed_inside_callback", "setstate_inside_callback",
             "hutch_hit_max_iters", "hutch_stopped_by_tol", "shim_vmap_used", "alloc_fail_inside_rng_section",
             "crash_points_enumerated", "user_fn_callbacks", "alg_objects_made", "twins", "panel_calls",
-            "address_reused_after_drop"],
+            "address_reused_after_drop", "thread_runs", "thread_switches", "thread_line_sweeps"],
     "C18": ["class_first_arrayless_then_arrays", "class_first_arrays_then_arrayless", "distinct_concrete_classes_created",
             "raise_at_first", "raise_at_middle", "repeat_after_fault", "reenter_same_key", "annotate_then_check_original",
             "to_dtype_move", "flatten_leaf_substituted", "optional_module_imported", "default_Auto_paths",
